@@ -13,9 +13,35 @@ def t1_hashmap(w, rel):
                 "#[cfg(not(kani))]\nuse std::collections::HashMap;\n#[cfg(kani)]\nuse crate::verif_shim::HashMap;")
 
 
+N4_MASKS = (7, 11, 13, 14, 15)          # 4-slot tables with three or four jobs
+N4_OPS = ("update_status", "remove", "insert", "set_current")
+
+
+def make_n4_variant(w):
+    """Thorough tier: the same step harnesses over 4-slot tables (generated from c12_job.rs:
+    N = 4, arms for the occupancy masks with >= 3 jobs, harness names c12n4_*)."""
+    import os
+    src = os.path.join(w.hdir, "incrate", "c12_job.rs")
+    with open(src) as f:
+        t = f.read()
+    t = t.replace("const N: usize = 3; // slots in the table (bound)", "const N: usize = 4; // slots in the table (bound)")
+    a = t.index("// One harness per (operation, occupancy mask).")
+    b = t.index("/// Base case: the empty table satisfies I.")
+    arms = "// 4-slot variant: occupancy masks with three or four jobs\n"
+    for op in N4_OPS:
+        for m in N4_MASKS:
+            arms += "arm!(c12n4_%s_m%d, step_%s, %d, false);\n" % (op, m, op, m)
+    t = t[:a] + arms + "\n" + t[b:]
+    t = t.replace("fn c12_base()", "fn c12n4_base()")
+    with open(os.path.join(w.hdir, "incrate", "c12_job4.rs"), "w") as f:
+        f.write(t)
+
+
 def setup(w, name="", tier="thorough"):
-    if tier == "quick":
+    if tier == "quick" and not name.startswith("c12n4_"):
         w.strip_thorough("c12_job.rs")
+    else:
+        make_n4_variant(w)
     w.drop_downstream_dev_deps("yash-env")
     w.disable_unit_tests_under_kani("yash-env")
     w.inject("yash-env/src/lib.rs", "shim_hashmap.rs", modname="verif_shim")
@@ -24,6 +50,9 @@ def setup(w, name="", tier="thorough"):
                 "use std::collections::hash_map::Entry::*;",
                 "#[cfg(not(kani))]\n        use std::collections::hash_map::Entry::*;\n        #[cfg(kani)]\n        use crate::verif_shim::Entry::*;")
     w.inject("yash-env/src/job.rs", "c12_job.rs")
+    import os
+    if os.path.exists(os.path.join(w.hdir, "incrate", "c12_job4.rs")):
+        w.inject("yash-env/src/job.rs", "c12_job4.rs")
     return core.KaniSession(w, w.ws, pkg="yash-env", tag="env", zflags=["stubbing"])
 
 
@@ -43,14 +72,17 @@ OPS = [
 def harnesses(tier):
     """One harness per (operation, occupancy mask): CBMC keeps the whole equation in memory,
     8 arms in one harness ran the SAT back end out of memory (10.6 M variables); one arm is
-    ~1 M variables. quick: the 8 masks with the ascending free-list order (plus the reversed
-    order for insert, where the free list decides the new index); thorough: both orders for
-    every operation."""
+    ~1 M variables. quick (stopped after 900 s by the harness that runs it): the tables with two
+    or three jobs (masks 3, 5, 6, 7); thorough: all 8 masks, both free-list orders where they
+    differ, and the 4-slot variant for the re-selecting operations."""
     hs = []
     for op, fns, clause in OPS:
-        variants = [("m%d" % m, "ascending") for m in range(8)]
-        if tier == "thorough" or op == "insert":
-            variants += [("r%d" % m, "descending") for m in (0, 1, 2, 4)]
+        if tier == "thorough":
+            variants = [("m%d" % m, "ascending") for m in range(8)] + [("r%d" % m, "descending") for m in (0, 1, 2, 4)]
+        elif op == "misc":
+            variants = [("m5", "ascending"), ("m7", "ascending")]
+        else:
+            variants = [("m%d" % m, "ascending") for m in (3, 5, 6, 7)]
         for v, order in variants:
             hs.append(Harness("c12_%s_%s" % (op, v),
                               "3-slot table, occupancy mask %s, slab free list built in %s order; job states/flags, "
@@ -60,6 +92,17 @@ def harnesses(tier):
                               "invariant preserved; " + clause, timeout=1500, mem_gb=16, mod=M, cover_group="c12_" + op,
                               stubs=(["JobList::remove -> its contract (discharged by c12_remove_*), current/previous job "
                                       "havocked under the invariant"] if op == "extract_if" else [])))
+    if tier == "thorough":
+        M4 = "job::verif_c12_job4"
+        opfn = {o: f for o, f, _ in OPS}
+        for op in N4_OPS:
+            for m in N4_MASKS:
+                hs.append(Harness("c12n4_%s_m%d" % (op, m),
+                                  "4-slot table, occupancy mask %d (three or four jobs); job states/flags, current/previous index and all "
+                                  "arguments symbolic; pre-state constrained only by the invariant" % m,
+                                  opfn[op] + ["yash_env::job::JobList::current_job", "yash_env::job::JobList::previous_job"],
+                                  "invariant preserved over tables of up to 4 jobs; documented effect of " + op,
+                                  timeout=2400, mem_gb=20, mod=M4, cover_group="c12n4_" + op))
     hs.append(Harness("c12_base", "empty table", ["yash_env::job::JobList::new"], "base case of the induction",
                       timeout=600, mod=M))
     return hs
@@ -79,7 +122,15 @@ def run(tier, seed, only=None):
         w = core.Workspace("c12")
         sess = setup(w, tier=tier)
         hs = [h for h in harnesses(tier) if not only or h.name in only]
-        res = sess.run_all(hs, jobs=10)
+        # longest first (measured: remove > extract_if > insert > update_status > misc > set_current)
+        cost = {"remove": 0, "extract_if": 1, "insert": 2, "update_status": 3, "misc": 4, "set_current": 5, "base": 6}
+        def rank(h):
+            for k, v in cost.items():
+                if ("_" + k + "_") in h.name or h.name.endswith("_" + k):
+                    return (0 if h.name.startswith("c12n4_") else 1, v)
+            return (1, 9)
+        hs.sort(key=rank)
+        res = sess.run_all(hs, jobs=12)
         out.extra.update({"kani_build_s": round(sess.build_s, 1), "repo_state": w.repo_state,
                           "injected": w.injected, "transforms": w.transforms})
         out.add_kani_results(res, sess, core.load_known(PID), PID)
